@@ -787,4 +787,6 @@ Ops_Membership == Ops_Tx \cup {"GetMailboxMessageIDPairs", "GetMailboxRecentCoun
   "AddMessagesToMailbox", "RemoveMessagesFromMailbox", "ClearRecentFlagInMailboxOnMessage", "ClearRecentFlagsInMailbox",
   "SetMailboxMessagesDeletedFlag", "CreateMessages", "CreateMessageAndAddToMailbox", "DeleteMessages",
   "UpdateRemoteMessageID", "MarkMessageAsDeletedAndAssignRandomRemoteID", "AddFlagToMessages"}
+Ops_MembershipCore == Ops_Membership \ {"UpdateRemoteMessageID", "MarkMessageAsDeletedAndAssignRandomRemoteID", "AddFlagToMessages",
+  "GetMailboxMessageCountWithRemoteID", "GetTotalMessageCount"}
 =============================================================================
